@@ -47,7 +47,18 @@ def cls(f):
 texts = []
 for base in SMALL[:6]:
     for k in range(len(base)): texts.append((base[:k], 'truncate-every-byte'))
-while len(texts) < N:
+# one punctuation token inserted at / deleted from every token boundary of small programs with formals, lists, calls
+# (exhaustive part, third round of seeds: stray commas in formals, missing `;` `}` `]` `)`)
+PUNCT_BASES = ['{ a, b }: a', '{ a, b ? 1, ... }: a', '{ a, ... }@args: a', '{ pname, version }: { name = pname; }', 'f: { a }: [ a ]', '{ a = 1; b = [ 1 2 ]; }', 'f (g x) { y = 1; }']
+for base in PUNCT_BASES:
+    ls = []; leaves(parse_to_ast(base), ls); b = base.encode()
+    for n in ls:
+        for tok in (',', ';', ':', '}', ')', ']', '=', '@', '?', '...'):
+            texts.append(((b[:n.start_byte] + tok.encode() + b' ' + b[n.start_byte:]).decode(), 'punct-insert'))
+        if n.type in (',', ';', ':', '}', ')', ']', '{', '(', '[', '=', '@', '?', 'ellipses', '...'):
+            texts.append(((b[:n.start_byte] + b[n.end_byte:]).decode(), 'punct-delete'))
+NFIX = len(texts)
+while len(texts) < NFIX + N:
     t, how = damaged()
     if t is not None: texts.append((t, how))
 VALID_DOC = '{\n  a = 1;\n  b = 2;\n}\n'
